@@ -105,3 +105,25 @@ PROPS["C17"] = dict(
     level_note="Trusted: the oracle formulas in harness/c17_gridindex.cpp (64-bit modulo, coordinate differences).",
     assumptions=["angles without antipodal partner / non-monotone arrays are inadmissible and must raise std::invalid_argument"],
 )
+
+PROPS["C18"] = dict(
+    harness="c18_gridgen", flavour="asan",
+    quick=dict(workers=8, cases=24000, min_nontrivial=200),
+    thorough=dict(workers=16, cases=400000, min_nontrivial=1000, budget_s=3000),
+    rule="PolarGrid(R0,Rmax,nr_exp,ntheta_exp,refinement_radius,anisotropic_factor,divideBy2) with nr_exp 0..7, "
+         "ntheta_exp -1..9, anisotropic_factor -1..nr_exp+1, divideBy2 0..3, R0/Rmax 1e-8..0.5, refinement radius 0 "
+         "(command-line default), R0, Rmax, -1, 2*Rmax, 1%/2%/98%/99% into the domain, or uniform inside; max-level caps "
+         "-1,0,1,2,3,4,6; file modes: none / write(precision 12,15,18)+load / missing / empty / byte-mutated valid file. "
+         "Either a std::exception or: validity predicate, exact R0/Rmax, uniform antipodal angles, midpoint nesting, "
+         "bitwise containment in the divideBy2+1 grid, level count L from the solver (friend accessor, plus the real "
+         "setup() on small grids) admits L-1 coarsenings, file round trip within 10^-p. ASan/UBSan/asserts silent. "
+         "Non-trivial: anisotropic_factor>=1 or divideBy2>=1 or a file case. Distinct: (nr_exp, ntheta_exp, aniso, "
+         "div, file mode, decile of refinement position, level cap).",
+    technique="property-based testing (rapidcheck) under ASan/UBSan/assert; validity-predicate and metamorphic (refinement nesting, file round-trip) oracles",
+    level_text="Generated parameter vectors (including the out-of-domain refinement radii the command line defaults to) "
+               "drive the real grid constructor, the solver's own finest-grid/level-count code and the file I/O; every "
+               "accepted grid must satisfy an executable validity predicate and the metamorphic nesting/round-trip "
+               "relations, every rejection must be an exception. Exploration.",
+    level_note="Trusted: the validity predicate in harness/c18_gridgen.cpp; sanitizers for out-of-bounds detection.",
+    assumptions=["R0 < Rmax (the constructor asserts it; the property quantifies over R0<Rmax)"],
+)
